@@ -490,7 +490,9 @@ class Snapshot:
             buffer_size_limit_bytes=memory_budget_bytes,
         )
 
-        if not is_batching_disabled():
+        # Merging the tiled read requests of an object back into a single
+        # read would defeat the purpose of memory_budget_bytes.
+        if not is_batching_disabled() and memory_budget_bytes is None:
             read_reqs = batch_read_requests(read_reqs=read_reqs)
 
         sync_execute_read_reqs(
